@@ -437,9 +437,13 @@ impl Run {
                     st.fail_base = st.seq;
                     st.fail_at = f.iter().filter_map(|x| x.as_u64()).collect();
                 }
+                // `short_read: k`: the source backend returns only half of the bytes for its next k pack reads
+                let sr = op.get("short_read").and_then(|v| v.as_u64()).unwrap_or(0) as usize;
+                self.stores[s].lock().unwrap().short_reads = sr;
                 let m = &self.reps[r].as_ref().unwrap().melda;
                 let other = &self.reps[s].as_ref().unwrap().melda;
                 let out = call(pool, || m.meld(other), |v| Value::from(v.iter().map(|k| tok(k)).collect::<Vec<_>>()));
+                self.stores[s].lock().unwrap().short_reads = 0;
                 self.stores[r].lock().unwrap().fail_at.clear();
                 let writes = self.writes_since(r, from);
                 let mut x = json!({"writes": writes, "src": rname(s)});
@@ -1015,16 +1019,29 @@ pub fn random_spec(run: u64, seed: u64, profile: &str) -> Value {
                 }
                 json!({"op": "refresh", "r": r})
             }
-            83..=84 => json!({"op": "export_replay", "r": r}),
-            85 => {
-                // toggle between two documents before the commit: several staged revisions with the same digest
-                ops.push(json!({"op": "edit", "r": r, "seed": p.next()}));
-                ops.push(json!({"op": "resubmit", "r": r, "back": 1}));
-                ops.push(json!({"op": "resubmit", "r": r, "back": 1}));
-                if p.chance(1, 2) {
+            83 => json!({"op": "export_replay", "r": r}),
+            84..=85 => {
+                let chain = p.chance(1, 2);
+                if chain {
+                    // a chain of two different staged edits of the same objects, exported and replayed, committed
+                    ops.push(json!({"op": "commit", "r": r, "seed": p.next()}));
+                    ops.push(json!({"op": "edit", "r": r, "seed": p.next()}));
+                    ops.push(json!({"op": "edit", "r": r, "seed": p.next()}));
+                } else {
+                    // toggle between two documents before the commit: several staged revisions with the same digest
+                    ops.push(json!({"op": "edit", "r": r, "seed": p.next()}));
                     ops.push(json!({"op": "resubmit", "r": r, "back": 1}));
+                    ops.push(json!({"op": "resubmit", "r": r, "back": 1}));
+                    if p.chance(1, 2) {
+                        ops.push(json!({"op": "resubmit", "r": r, "back": 1}));
+                    }
                 }
-                json!({"op": "export_replay", "r": r})
+                ops.push(json!({"op": "export_replay", "r": r}));
+                if chain || p.chance(1, 2) {
+                    ops.push(json!({"op": "commit", "r": r, "seed": p.next()}));
+                }
+                // an idle refresh / reload afterwards must not change what is shown
+                if p.chance(1, 2) { json!({"op": "refresh", "r": r}) } else { json!({"op": "reload", "r": r}) }
             }
             86..=88 => json!({"op": "reload_until", "r": r, "hs": p.below(16)}),
             89..=90 => json!({"op": "reload", "r": r}),
@@ -1329,6 +1346,14 @@ pub fn random_spec(run: u64, seed: u64, profile: &str) -> Value {
         ops.push(json!({"op": "unstage", "r": 0}));
         ops.push(json!({"op": "unstage", "r": 1}));
         ops.push(json!({"op": "sync", "r": 0, "s": 1}));
+        if p.chance(1, 3) {
+            // files arrive in batches of several, with a refresh between the batches only
+            let perm = p.next() % 1_000_000_007;
+            for _ in 0..4 {
+                ops.push(json!({"op": "deliver", "r": 2, "s": 0, "perm": perm, "refresh_each": false, "limit": 1 + p.below(4)}));
+                ops.push(json!({"op": "refresh", "r": 2}));
+            }
+        }
         ops.push(json!({"op": "deliver", "r": 2, "s": 0, "perm": p.next() % 1_000_000_007, "refresh_each": true, "flaky": p.chance(1, 3)}));
         ops.push(json!({"op": "reload", "r": 2}));
         ops.push(json!({"op": "sync", "r": 2, "s": 0}));
@@ -1366,6 +1391,11 @@ pub fn random_spec(run: u64, seed: u64, profile: &str) -> Value {
             }
             if p.chance(1, 2) {
                 let f: Vec<u64> = if p.chance(1, 2) { vec![1 + p.below(3) as u64] } else { vec![] };
+                if p.chance(1, 4) {
+                    // the source's backend delivers a short read of a pack during this meld; the next meld is clean
+                    ops.push(json!({"op": "meld", "r": 1 - r, "s": r, "short_read": 1 + p.below(2)}));
+                    ops.push(json!({"op": "refresh", "r": 1 - r}));
+                }
                 ops.push(json!({"op": "meld", "r": 1 - r, "s": r, "fail": f, "crashenum": true}));
                 ops.push(json!({"op": "refresh", "r": 1 - r}));
             }
